@@ -4,6 +4,7 @@ use crate::codec::{canon_debug, err_kind, Describe};
 use std::pin::Pin;
 use std::sync::atomic::{AtomicUsize, Ordering};
 use std::sync::Arc;
+use std::future::Future;
 use std::task::{Context, Poll};
 use tokio::io::{AsyncRead, ReadBuf};
 use zvt::ZvtParser;
@@ -13,13 +14,16 @@ pub struct Chunked {
     idx: usize,
     off: usize,
     pend: bool,
+    /// virtual seconds that pass between two chunks (`read@D`); 0: an immediate wake-up
+    delay: u64,
+    sleep: Option<Pin<Box<tokio::time::Sleep>>>,
     pub consumed: Arc<AtomicUsize>,
     pub polls: Arc<AtomicUsize>,
 }
 
 impl Chunked {
     pub fn new(chunks: Vec<Vec<u8>>) -> Self {
-        Self { chunks, idx: 0, off: 0, pend: false, consumed: Arc::new(AtomicUsize::new(0)), polls: Arc::new(AtomicUsize::new(0)) }
+        Self { chunks, idx: 0, off: 0, pend: false, delay: crate::seq::MAX_READ.load(Ordering::Relaxed) as u64, sleep: None, consumed: Arc::new(AtomicUsize::new(0)), polls: Arc::new(AtomicUsize::new(0)) }
     }
 }
 
@@ -27,9 +31,22 @@ impl AsyncRead for Chunked {
     fn poll_read(mut self: Pin<&mut Self>, cx: &mut Context<'_>, buf: &mut ReadBuf<'_>) -> Poll<std::io::Result<()>> {
         self.polls.fetch_add(1, Ordering::Relaxed);
         if self.pend {
-            self.pend = false;
-            cx.waker().wake_by_ref();
-            return Poll::Pending;
+            if self.delay == 0 {
+                self.pend = false;
+                cx.waker().wake_by_ref();
+                return Poll::Pending;
+            }
+            // a pause of `delay` virtual seconds before the next chunk arrives
+            if self.sleep.is_none() {
+                self.sleep = Some(Box::pin(tokio::time::sleep(std::time::Duration::from_secs(self.delay))));
+            }
+            match self.sleep.as_mut().unwrap().as_mut().poll(cx) {
+                Poll::Pending => return Poll::Pending,
+                Poll::Ready(()) => {
+                    self.sleep = None;
+                    self.pend = false;
+                }
+            }
         }
         while self.idx < self.chunks.len() && self.off >= self.chunks[self.idx].len() {
             self.idx += 1;
@@ -80,7 +97,7 @@ pub fn anyhow_kind(e: &anyhow::Error) -> String {
 }
 
 pub fn run_read<T: ZvtParser + Describe + Send>(chunks: Vec<Vec<u8>>) -> String {
-    let rt = tokio::runtime::Builder::new_current_thread().enable_time().build().unwrap();
+    let rt = tokio::runtime::Builder::new_current_thread().enable_time().start_paused(true).build().unwrap();
     rt.block_on(async move {
         let reader = Chunked::new(chunks);
         let consumed = reader.consumed.clone();
